@@ -168,6 +168,12 @@ class Boxes(Relation):
         cls = rs['cls']
         reg = S.build(rs)
         ctx.label(cls, G.angle_family(rs))
+        from vf.fingerprint import fp
+        fp_reg = fp(reg)
+        b1 = reg.bounding_box
+        b2 = reg.bounding_box
+        ctx.check(fp(reg) == fp_reg and box_tuple(b1) == box_tuple(b2),
+                  f'{cls} | bounding_box modifies the region or is not stable')
         if cls == 'CompoundPixelRegion':
             bb = reg.bounding_box
             want = union_ref(rs)
